@@ -29,6 +29,7 @@ type Contract struct {
 	Requires  []*Clause
 	Ensures   []*Clause
 	Assumes   []*Clause // assumed facts about the inputs (not required of callers; listed in evidence)
+	Commutes  []CommuteReq // map-range loops with a commutativity obligation
 	Carve     *Clause   // known-finding carve-out: every obligation is split into (cond ==> goal) and (!cond ==> goal)
 	CaseAll   bool      // the case split applies to every obligation of the unit, not only postconditions
 	Cases     []*Clause // case split of postcondition obligations (conditions over the entry state)
@@ -79,6 +80,11 @@ type GlobalInv struct {
 	Name string // non-empty: a named axiom, assumed only in units that list it under "uses"
 	Expr ast.Expr
 	Text string
+}
+
+type CommuteReq struct {
+	Loop  int // ordinal among the map-range loops of the function
+	Label string
 }
 
 // Scan is a syntactic (SSA scan) obligation: e.g. the fields of a struct invariant are written only by
@@ -245,7 +251,7 @@ func parseCExpr(text string) (ast.Expr, string, error) {
 }
 
 var clauseKeywords = map[string]bool{
-	"func": true, "props": true, "ghostensures": true, "case": true, "assume": true, "carve": true, "caseall": true, "mode": true, "requires": true, "ensures": true, "invariant": true,
+	"func": true, "props": true, "ghostensures": true, "case": true, "assume": true, "carve": true, "caseall": true, "commute": true, "mode": true, "requires": true, "ensures": true, "invariant": true,
 	"modifies": true, "safety": true, "overflow": true, "inline": true, "trusted": true, "dispatch": true,
 	"let": true, "spec": true, "external": true, "uf": true, "params": true, "results": true,
 	"global": true, "noinline": true, "nocontract": true, "expand": true, "split": true, "strictpkgs": true, "modcomps": true, "axiom": true, "uses": true, "scan": true, "witness": true, "havoc": true, "inlineall": true, "unroll": true,
@@ -402,6 +408,14 @@ func (cs *ContractSet) parseContractSource(pkgPath, filename string, src []byte)
 				if c := mk(rest); c != nil {
 					cur.Assumes = append(cur.Assumes, c)
 				}
+			case "commute":
+				n := 0
+				fmt.Sscanf(rest, "%d", &n)
+				lab := label
+				if lab == "" {
+					lab = fmt.Sprintf("loop%d", n)
+				}
+				cur.Commutes = append(cur.Commutes, CommuteReq{Loop: n, Label: lab})
 			case "caseall":
 				cur.CaseAll = true
 			case "carve":
